@@ -1,14 +1,363 @@
 /-
-  Driver.C16 — line protocol front end for property C16 (stub: not built yet).
+  Driver.C16 — line protocol for property C16 (fallible APIs are total).
+
+  Every answer is the outcome the *property* demands (computed with the repaired model,
+  `Arith.fixed`); the implementation must give the same outcome kind and payload.  There is no
+  `##` part: the pinned code's panics show up as `obs` mismatches (`panic(overflow)` vs the
+  demanded `none` / `err …` / clipped value).
+
+  Stateless cases
+    @ try_from <shape> <n> [via=…]          Tensor::try_from with n elements → ok | err <shape>
+    @ is_valid <shape>                      InvalidShapeError::new(shape).is_valid() → true | false
+    @ try_into_scalar <rows> <cols>         → ok(<id>) | err
+    @ into_tensor <rows> <cols> <n1> <n2>   → ok shape=<shape> | err <shape>
+    @ linalg <fn> <rows> <cols> <singular>  → some[ <r>x<c>…] | none
+    @ record <tensor|matrix> <shape> <hists>            from_iter
+    @ records <tensor|matrix> <shape> <hists>|<hists>   from_iters, N = 2
+  Cases with a current tensor view (ids = 1000·leaf + flat offset)
+    @ tensor <shape>                        one leaf tensor
+    @ stack <shape> <n> <pos>:<name>        TensorStack of n leaves
+    @ chain <shape>|<shape>… <name>         TensorChain of the leaves along <name>
+    access|transpose <names>                TensorAccess/TensorTranspose::try_from(current, names)
+                                            → ok shape=<shape> | err actual=<shape> requested=<names>
+    range|mask <mode> <args>                mode ∈ from, from_strict (args name:start:len,…),
+                                            from_all, from_all_strict (args start:len|*,…)
+                                            → ok shape=<shape> | err invalid_shape <shape>
+                                              | err invalid_dimensions provided=<names> valid=<names>
+                                              | err outside_shape shape=<shape> ranges=<args>
+    reverse <names> | rename <names> | index <name:i,…> | expand <pos:name,…>   → ok shape=<shape>
+    tmatrix <n1> <n2>                       TensorRefMatrix::with_names(current matrix view)
+    get <idx>                               checked getters → some(<id>) | none
+  Cases with a current matrix view (ids = flat offset)
+    @ matrix <rows> <cols>
+    @ partition <rows> <cols> <rparts> <cparts>   → ok sizes=<r>x<c>;… | panic(<kind>)
+    part <k>                                select a part as the current view → ok size=<r>x<c>
+    mrange <rs>:<rl> <cs>:<cl> | mreverse <0|1> <0|1> | mmap | mtensor   → ok size=<r>x<c>
+    mget <row> <col>                        → some(<id>) | none
 -/
+import EasyMl.Model.MatrixView
 import Driver.Parse
 
 namespace Driver.C16
+open EasyMl EasyMl.Fallible EasyMl.MatrixView Driver
 
-abbrev State := Unit
+structure State where
+  tview : Option (TView String) := none
+  mview : Option MView := none
+  parts : List MatrixPart := []
 
-def init : State := ()
+def init : State := {}
 
-def step (s : State) (_toks : List String) : State × String := (s, "unimplemented")
+def A : Arith := Arith.fixed
+
+def parseRange (s : String) : Option IndexRange :=
+  match s.splitOn ":" with
+  | [a, b] =>
+    match a.toNat?, b.toNat? with
+    | some x, some y => some ⟨x, y⟩
+    | _, _ => none
+  | _ => none
+
+/-- `name:start:len,…` -/
+def parseNamedRanges (s : String) : Option (List (String × IndexRange)) :=
+  (splitComma s).mapM fun part =>
+    match part.splitOn ":" with
+    | [n, a, b] =>
+      match a.toNat?, b.toNat? with
+      | some x, some y => some (n, ⟨x, y⟩)
+      | _, _ => none
+    | _ => none
+
+/-- `start:len|*,…` -/
+def parseAllRanges (s : String) : Option (List (Option IndexRange)) :=
+  (splitComma s).mapM fun part =>
+    if part = "*" then some none else (parseRange part).map some
+
+def showAllRanges (l : List (Option IndexRange)) : String :=
+  if l.isEmpty then "-" else
+    ",".intercalate (l.map fun
+      | none => "*"
+      | some r => s!"{r.start}:{r.length}")
+
+def showNames (l : List String) : String := if l.isEmpty then "-" else ",".intercalate l
+
+/-- `name:n,…` -/
+def parseNamedNats (s : String) : Option (List (String × Nat)) :=
+  (splitComma s).mapM fun part =>
+    match part.splitOn ":" with
+    | [n, a] => a.toNat?.map fun x => (n, x)
+    | _ => none
+
+/-- `n:name,…` -/
+def parseNatNamed (s : String) : Option (List (Nat × String)) :=
+  (splitComma s).mapM fun part =>
+    match part.splitOn ":" with
+    | [a, n] => a.toNat?.map fun x => (x, n)
+    | _ => none
+
+def showRangeError : RangeError String → String
+  | .invalidShape sh => s!"err invalid_shape {showShape sh}"
+  | .invalidDimensions p v => s!"err invalid_dimensions provided={showNames p} valid={showNames v}"
+  | .outsideShape sh r => s!"err outside_shape shape={showShape sh} ranges={showAllRanges r}"
+
+def withBase (v : TView String) (base : Nat) : TView String :=
+  { v with get := fun idx =>
+      match v.get idx with
+      | .ok (some i) => .ok (some (i + base))
+      | o => o }
+
+/-- a leaf tensor of the given (valid) shape holding the ids `base + 0..n` -/
+def leaf (shape : Shape String) (base : Nat) : Option (TView String) :=
+  match tensorTryFrom A shape (elements shape) with
+  | .ok (.ok t) => some (withBase (TView.ofTensor t) base)
+  | _ => none
+
+def showHist : Option Nat → String
+  | none => "c"
+  | some k => toString k
+
+def parseHists (s : String) : Option (List (Option Nat)) :=
+  (splitComma s).mapM fun h => if h = "c" then some none else h.toNat?.map some
+
+def showRecordError : RecordIterError String → String
+  | .shape requested length => s!"err shape requested={showShape requested} length={length}"
+  | .empty => "err empty"
+  | .inconsistentHistory f l => s!"err inconsistent first={showHist f} later={showHist l}"
+
+def recordOne (kind : String) (shape : Shape String) (hists : List (Option Nat)) : String :=
+  if kind = "tensor" then
+    showOutcome (fun
+      | .ok (h, t) => s!"ok history={showHist h} shape={showShape t.shape}"
+      | .error e => showRecordError e) (recordTensorFromIter A shape hists)
+  else
+    match shape with
+    | [(_, r), (_, c)] =>
+      showOutcome (fun
+        | .ok (h, r, c) => s!"ok history={showHist h} shape=rows:{r},columns:{c}"
+        | .error e => showRecordError e) (recordMatrixFromIter A r c "rows" "columns" hists)
+    | _ => "bad-op"
+
+def sizeStr (v : MView) : String := s!"{v.rows}x{v.columns}"
+
+def setT (s : State) (r : Outcome (Except (RangeError String) (TView String))) : State × String :=
+  match r with
+  | .panic k => (s, s!"panic({k})")
+  | .ok (.error e) => (s, showRangeError e)
+  | .ok (.ok v) => ({ s with tview := some v }, s!"ok shape={showShape v.shape}")
+
+def step (s : State) (toks : List String) : State × String :=
+  match toks with
+  | "@" :: "try_from" :: shapeS :: nS :: _ =>
+    match parseShape shapeS, nS.toNat? with
+    | some shape, some n =>
+      match tensorTryFrom A shape n with
+      | .panic k => ({}, s!"panic({k})")
+      | .ok (.error sh) => ({}, s!"err {showShape sh}")
+      | .ok (.ok t) => ({ tview := some (TView.ofTensor t) }, "ok")
+    | _, _ => ({}, "bad-op")
+  | "@" :: "is_valid" :: shapeS :: _ =>
+    match parseShape shapeS with
+    | some shape => ({}, toString (isValidShape shape))
+    | none => ({}, "bad-op")
+  | "@" :: "try_into_scalar" :: rS :: cS :: _ =>
+    match rS.toNat?, cS.toNat? with
+    | some r, some c =>
+      ({}, showOutcome (fun | some i => s!"ok({i})" | none => "err") (tryIntoScalar ⟨r * c, r, c⟩))
+    | _, _ => ({}, "bad-op")
+  | "@" :: "into_tensor" :: rS :: cS :: n1 :: n2 :: _ =>
+    match rS.toNat?, cS.toNat? with
+    | some r, some c =>
+      match matrixIntoTensor A ⟨r * c, r, c⟩ n1 n2 with
+      | .panic k => ({}, s!"panic({k})")
+      | .ok (.error sh) => ({}, s!"err {showShape sh}")
+      | .ok (.ok t) => ({ tview := some (TView.ofTensor t) }, s!"ok shape={showShape t.shape}")
+    | _, _ => ({}, "bad-op")
+  | "@" :: "linalg" :: fn :: rS :: cS :: singS :: _ =>
+    match rS.toNat?, cS.toNat? with
+    | some r, some c =>
+      let sing := singS = "1"
+      let pair : Nat × Nat → String := fun (a, b) => s!"{a}x{b}"
+      let ans :=
+        if fn = "determinant" then
+          showOutcome (fun | some () => "some" | none => "none") (determinantShape r c)
+        else if fn = "inverse" then
+          showOutcome (fun | some p => s!"some {pair p}" | none => "none") (inverseShape r c sing)
+        else if fn = "cholesky" then
+          showOutcome (fun | some p => s!"some {pair p}" | none => "none") (choleskyShape r c)
+        else if fn = "ldlt" then
+          showOutcome (fun | some p => s!"some {pair p} {pair p}" | none => "none") (choleskyShape r c)
+        else if fn = "qr" then
+          showOutcome (fun | some (q, r) => s!"some {pair q} {pair r}" | none => "none") (qrShape r c)
+        else "bad-op"
+      ({}, ans)
+    | _, _ => ({}, "bad-op")
+  | "@" :: "record" :: kind :: shapeS :: histS :: _ =>
+    match parseShape shapeS, parseHists histS with
+    | some shape, some hists => ({}, recordOne kind shape hists)
+    | _, _ => ({}, "bad-op")
+  | "@" :: "records" :: kind :: shapeS :: histS :: _ =>
+    match parseShape shapeS, histS.splitOn "|" with
+    | some shape, [h0, h1] =>
+      match parseHists h0, parseHists h1 with
+      | some l0, some l1 => ({}, recordOne kind shape l0 ++ " | " ++ recordOne kind shape l1)
+      | _, _ => ({}, "bad-op")
+    | _, _ => ({}, "bad-op")
+  | "@" :: "tensor" :: shapeS :: _ =>
+    match (parseShape shapeS).bind (leaf · 0) with
+    | some v => ({ tview := some v }, "ok")
+    | none => ({}, "bad-op")
+  | "@" :: "stack" :: shapeS :: nS :: alongS :: _ =>
+    match parseShape shapeS, nS.toNat?, parseNatNamed alongS with
+    | some shape, some n, some [along] =>
+      match (List.range n).mapM fun k => leaf shape (1000 * k) with
+      | some leaves =>
+        let v := TView.stack leaves along
+        ({ tview := some v }, s!"ok shape={showShape v.shape}")
+      | none => ({}, "bad-op")
+    | _, _, _ => ({}, "bad-op")
+  | "@" :: "chain" :: shapesS :: name :: _ =>
+    match (shapesS.splitOn "|").mapM parseShape with
+    | some (first :: rest) =>
+      let shapes := first :: rest
+      match (shapes.zipIdx).mapM (fun (sh, k) => leaf sh (1000 * k)), positionOf first name with
+      | some leaves, some along =>
+        match TView.chain leaves along with
+        | .ok v => ({ tview := some v }, s!"ok shape={showShape v.shape}")
+        | .panic k => ({}, s!"panic({k})")
+      | _, _ => ({}, "bad-op")
+    | _ => ({}, "bad-op")
+  | "@" :: "matrix" :: rS :: cS :: _ =>
+    match rS.toNat?, cS.toNat? with
+    | some r, some c => ({ mview := some (MView.ofMatrix ⟨r * c, r, c⟩) }, "ok")
+    | _, _ => ({}, "bad-op")
+  | "@" :: "partition" :: rS :: cS :: rpS :: cpS :: _ =>
+    match rS.toNat?, cS.toNat?, parseNatList rpS, parseNatList cpS with
+    | some r, some c, some rp, some cp =>
+      match partition ⟨r * c, r, c⟩ rp cp with
+      | .panic k => ({}, s!"panic({k})")
+      | .ok parts =>
+        ({ parts := parts },
+          "ok sizes=" ++ ";".intercalate (parts.map fun p => s!"{p.rows}x{p.columns}"))
+    | _, _, _, _ => ({}, "bad-op")
+  | "part" :: kS :: _ =>
+    match kS.toNat?.bind (s.parts[·]?) with
+    | some p =>
+      let v := MView.ofPart p
+      ({ s with mview := some v }, s!"ok size={sizeStr v}")
+    | none => (s, "no-part")
+  | "mmap" :: _ =>
+    match s.mview with
+    | some m => ({ s with mview := some m.map }, s!"ok size={sizeStr m}")
+    | none => (s, "no-view")
+  | "mtensor" :: _ =>
+    match s.tview with
+    | some v =>
+      match MView.ofTensor v with
+      | .ok w => ({ s with mview := some w }, s!"ok size={sizeStr w}")
+      | .panic k => (s, s!"panic({k})")
+    | none => (s, "no-view")
+  | op :: namesS :: _ =>
+    if op = "access" ∨ op = "transpose" then
+      match s.tview with
+      | none => (s, "no-view")
+      | some v =>
+        let names := parseNames namesS
+        match (if op = "access" then accessTryFrom v names else transposeTryFrom v names) with
+        | .panic k => (s, s!"panic({k})")
+        | .ok (.error e) =>
+          (s, s!"err actual={showShape e.actual} requested={showNames e.requested}")
+        | .ok (.ok w) => ({ s with tview := some w }, s!"ok shape={showShape w.shape}")
+    else if op = "range" ∨ op = "mask" then
+      match s.tview, toks with
+      | some v, _ :: mode :: argsS :: _ =>
+        if mode = "from" ∨ mode = "from_strict" then
+          match parseNamedRanges argsS with
+          | none => (s, "bad-op")
+          | some args =>
+            setT s (match op, mode with
+              | "range", "from" => rangeFrom A v args
+              | "range", _ => rangeFromStrict A v args
+              | _, "from" => maskFrom A v args
+              | _, _ => maskFromStrict A v args)
+        else
+          match parseAllRanges argsS with
+          | none => (s, "bad-op")
+          | some args =>
+            setT s (match op, mode with
+              | "range", "from_all" => rangeFromAll A v args
+              | "range", _ => rangeFromAllStrict A v args
+              | _, "from_all" => maskFromAll A v args
+              | _, _ => maskFromAllStrict A v args)
+      | none, _ => (s, "no-view")
+      | _, _ => (s, "bad-op")
+    else if op = "reverse" then
+      match s.tview with
+      | none => (s, "no-view")
+      | some v =>
+        let w := v.reverse A (parseNames namesS)
+        ({ s with tview := some w }, s!"ok shape={showShape w.shape}")
+    else if op = "rename" then
+      match s.tview with
+      | none => (s, "no-view")
+      | some v =>
+        let w := v.rename (parseNames namesS)
+        ({ s with tview := some w }, s!"ok shape={showShape w.shape}")
+    else if op = "index" then
+      match s.tview, parseNamedNats namesS with
+      | some v, some provided =>
+        let w := v.index provided
+        ({ s with tview := some w }, s!"ok shape={showShape w.shape}")
+      | none, _ => (s, "no-view")
+      | _, _ => (s, "bad-op")
+    else if op = "expand" then
+      match s.tview, parseNatNamed namesS with
+      | some v, some extra =>
+        match v.expansion extra with
+        | .ok w => ({ s with tview := some w }, s!"ok shape={showShape w.shape}")
+        | .panic k => (s, s!"panic({k})")
+      | none, _ => (s, "no-view")
+      | _, _ => (s, "bad-op")
+    else if op = "get" then
+      match s.tview, parseNatList namesS with
+      | some v, some idx => (s, showOutcome showOpt (v.get idx))
+      | none, _ => (s, "no-view")
+      | _, _ => (s, "bad-op")
+    else if op = "tmatrix" then
+      match s.mview, toks with
+      | some m, _ :: n1 :: n2 :: _ =>
+        match tensorRefMatrixWithNames m n1 n2 with
+        | .panic k => (s, s!"panic({k})")
+        | .ok (.error sh) => (s, s!"err {showShape sh}")
+        | .ok (.ok w) => ({ s with tview := some w }, s!"ok shape={showShape w.shape}")
+      | none, _ => (s, "no-view")
+      | _, _ => (s, "bad-op")
+    else if op = "mrange" then
+      match s.mview, toks with
+      | some m, _ :: rS :: cS :: _ =>
+        match parseRange rS, parseRange cS with
+        | some r, some c =>
+          match m.range A r c with
+          | .ok w => ({ s with mview := some w }, s!"ok size={sizeStr w}")
+          | .panic k => (s, s!"panic({k})")
+        | _, _ => (s, "bad-op")
+      | none, _ => (s, "no-view")
+      | _, _ => (s, "bad-op")
+    else if op = "mreverse" then
+      match s.mview, toks with
+      | some m, _ :: rS :: cS :: _ =>
+        let w := m.reverse A (rS = "1") (cS = "1")
+        ({ s with mview := some w }, s!"ok size={sizeStr w}")
+      | none, _ => (s, "no-view")
+      | _, _ => (s, "bad-op")
+    else if op = "mget" then
+      match s.mview, toks with
+      | some m, _ :: rS :: cS :: _ =>
+        match rS.toNat?, cS.toNat? with
+        | some r, some c => (s, showOutcome showOpt (m.get r c))
+        | _, _ => (s, "bad-op")
+      | none, _ => (s, "no-view")
+      | _, _ => (s, "bad-op")
+    else (s, "bad-op")
+  | _ => (s, "bad-op")
 
 end Driver.C16
